@@ -153,6 +153,17 @@ func ZZ_C09_list() {
 	fv := []interface{}{rt.Int64("fa"), NewUintNode(1, rt.Uint8("flv")), rt.String("fs", 2), rt.Bool("ft"), rt.Uint64("fu")}
 	slots := make([]interface{}, 5)
 	values := map[string]interface{}{"nope": 1}
+	// lvkind: the item inserted for lv brings its own variable, and the same map has a value
+	// under that name: 1 a name unknown to the template, 2 the name of template variable a
+	// (consumed by the same fill).  The inserted item is inserted as is.
+	lvkind := rt.Param("lvkind")
+	switch lvkind {
+	case 1:
+		fv[1] = NewIntNode(2, "n", rt.Int16("flv2"))
+		values["n"] = 9
+	case 2:
+		fv[1] = NewUintNode(1, "a", rt.Uint8("flv"))
+	}
 	for i, nm := range names {
 		slots[i] = nm
 		if fill&(1<<uint(i)) != 0 {
@@ -174,6 +185,10 @@ func ZZ_C09_list() {
 	}
 	zzSameItem(filled, direct, "list-fill")
 	zzSameItem(tmpl, zzListTemplate("a", "lv", "s", "t", "u", c0, c1, c2), "list-template-unchanged")
+	if lvkind == 2 {
+		rt.Reach("end") // in two steps the inserted variable a would meet the template's own a
+		return
+	}
 	split := rt.Choice("split", 32)
 	m1, m2 := map[string]interface{}{}, map[string]interface{}{}
 	for i, nm := range names {
